@@ -4,8 +4,9 @@ package tagreplication_test
 
 // C33 harness: the real tagreplication.Executor with the real tag client (tagclient.NewProvider) and
 // real origin HTTP clients (blobclient.New) talking to scripted HTTP servers; dependencies are
-// replicated through the real blobclient.Poll loop (with a zero-wait backoff of `bo` retries) or,
-// when no 202 is scripted, through the real clusterClient.ReplicateToRemote.  The servers record
+// replicated through the real clusterClient.ReplicateToRemote (its polling backoff replaced, through
+// the verif hook in origin/blobclient, by `bo` zero-wait retries).  Tasks go through a real
+// tagreplication.Store on SQLite: every execution runs what the store returns.  The servers record
 // every request in order; that order and the result of Exec are the observation.
 
 import (
@@ -113,22 +114,13 @@ type c33Resolver struct{ clients []blobclient.Client }
 
 func (r c33Resolver) Resolve(d core.Digest) ([]blobclient.Client, error) { return r.clients, nil }
 
-// c33Cluster is clusterClient.ReplicateToRemote with an injectable backoff (the real one waits
-// seconds between 202 answers): the same call of the real blobclient.Poll.
-type c33Cluster struct {
-	blobclient.ClusterClient
-	r  blobclient.ClientResolver
-	bo int
-}
-
-func (c c33Cluster) ReplicateToRemote(namespace string, d core.Digest, remoteDNS string) error {
-	var b backoff.BackOff = &backoff.StopBackOff{} // WithMaxRetries(_, 0) would mean "no limit"
-	if c.bo > 0 {
-		b = backoff.WithMaxRetries(&backoff.ZeroBackOff{}, uint64(c.bo))
+// c33BackOff is what the verif hook hands to the real clusterClient.ReplicateToRemote instead of its
+// default (seconds between 202 answers): `bo` zero-wait retries after a Reset.
+func c33BackOff(bo int) backoff.BackOff {
+	if bo <= 0 {
+		return &backoff.StopBackOff{} // WithMaxRetries(_, 0) would mean "no limit"
 	}
-	return blobclient.Poll(c.r, b, d, func(client blobclient.Client) error {
-		return client.ReplicateToRemote(namespace, d, remoteDNS)
-	})
+	return backoff.WithMaxRetries(&backoff.ZeroBackOff{}, uint64(bo))
 }
 
 type c33Env struct {
@@ -242,16 +234,7 @@ func c33Run(e *c33Env, tr *verifh.T, c verifh.Case) {
 			}
 		}
 	}
-	if real {
-		// the real cluster client sleeps seconds on a 202: only without scripted 202s
-		for _, s := range scripts {
-			for _, r := range s {
-				if r == "acc" {
-					real = false
-				}
-			}
-		}
-	}
+	real = true // the real clusterClient.ReplicateToRemote, with the polling backoff supplied through the verif hook
 	cfgToks = append([]string{fmt.Sprintf("reps=%d", reps), fmt.Sprintf("bo=%d", bo), "real=" + verifh.Bool(real)}, cfgToks...)
 	tr.Cfg(cfgToks...)
 	defer tr.End()
@@ -264,10 +247,8 @@ func c33Run(e *c33Env, tr *verifh.T, c verifh.Case) {
 		clients = append(clients, blobclient.New(c33Addr(e.origins[i])))
 	}
 	res := c33Resolver{clients}
-	var cluster blobclient.ClusterClient = c33Cluster{r: res, bo: bo}
-	if real {
-		cluster = blobclient.NewClusterClient(res)
-	}
+	blobclient.VerifPollBackOff = func() backoff.BackOff { return c33BackOff(bo) }
+	cluster := blobclient.NewClusterClient(res)
 	ex := tagreplication.NewExecutor(tally.NoopScope, cluster, tagclient.NewProvider(nil))
 	if _, err := e.db.Exec("DELETE FROM replicate_tag_task"); err != nil {
 		panic(err)
